@@ -67,7 +67,7 @@ def order(p, ctx):
         M1 = build(spec, p, ctx.symbolic)
         ok1, r1 = _run(M1, ctx)
         d1 = dump(M1)
-        M2 = build(spec, p, ctx.symbolic, hprio=perm)
+        M2 = build(spec, p, ctx.symbolic, hprio=perm, hprio_comp=list(reversed(range(len(spec.get("comps", []))))))
         ok2, r2 = _run(M2, ctx)
         d2 = dump(M2)
         if ok1 != ok2:
